@@ -42,6 +42,8 @@ THEOREMS = [
     "obs_fields_wf", "cell_roundtrip", "obs_line_roundtrip_v3", "obs_line_roundtrip_v2", "obs_lines_count_v2",
     "sat_list_roundtrip", "obs_types_fields_roundtrip_partial", "epoch_fields_roundtrip_partial", "decimation_spec",
     "blank_continuation_file_spec", "c11_blank_continuation_refuted",
+    "sys_obs_types_roundtrip", "epoch_roundtrip_v3", "rinex3_file_roundtrip", "rinex3_file_rows", "decimation_file_spec",
+    "undefined_types_absent",
 ]
 
 REQ = "From Verif Require Import Lib.Dyadic Model.C11_Rinex Model.C11_Check."
